@@ -1041,7 +1041,7 @@ class QueryBuilder(Selectable, Term):  # type:ignore[misc]
             selectable = Table(selectable)
         if isinstance(selectable, Table):
             # a second FROM item for a table that is in the statement already gets the automatic alias a join would give it
-            self._alias_repeated_table(
+            selectable = self._alias_repeated_table(
                 selectable, self._from + [self._update_table] + [j.item for j in self._joins]
             )
         self._from.append(selectable)  # type:ignore[arg-type]
@@ -1523,18 +1523,24 @@ class QueryBuilder(Selectable, Term):  # type:ignore[misc]
         base_tables = self._from + [self._update_table] + self._with
         join.validate(base_tables, self._joins)  # type:ignore[arg-type]
 
-        self._alias_repeated_table(join.item, base_tables + [j.item for j in self._joins])
+        join.item = self._alias_repeated_table(
+            join.item, base_tables + [j.item for j in self._joins]
+        )
 
         self._joins.append(join)
 
     @staticmethod
-    def _alias_repeated_table(item: Any, sources: list) -> None:
+    def _alias_repeated_table(item: Any, sources: list) -> Any:
         tables_in_query = [source for source in sources if isinstance(source, Table)]
         if (
             isinstance(item, Table)
             and item.alias is None
             and any(item == table for table in tables_in_query)
         ):
+            if any(item is table for table in tables_in_query):
+                # the very object that is a source already: the alias goes to a copy, or the source that is there (and every
+                # statement that shares it, the receiver of this call included) would be renamed with it
+                item = copy(item)
             # On the odd chance that we add a table that is in the statement already and don't set an alias:
             # give it the next free one - <name>2, <name>3, ...
             # every source counts - a subquery or set operation answers to its alias
@@ -1545,6 +1551,7 @@ class QueryBuilder(Selectable, Term):  # type:ignore[misc]
             while "%s%d" % (item._table_name, number) in names_in_use:
                 number += 1
             item.alias = "%s%d" % (item._table_name, number)
+        return item
 
     def is_joined(self, table: Table) -> bool:
         return any(table == join.item for join in self._joins)
